@@ -10,7 +10,7 @@ use std::task::{Context, Poll, Waker};
 
 use passkey_authenticator::{
     extensions::HmacSecretConfig, Authenticator, CredentialStore, Ctap2Api, DiscoverabilitySupport,
-    StoreInfo, UserCheck, UserValidationMethod,
+    StoreInfo, U2fApi, UserCheck, UserValidationMethod,
 };
 use passkey_types::{
     ctap2::{
@@ -178,6 +178,21 @@ fn main() {
     let log: Log = Arc::new(Mutex::new(Vec::new()));
     let rp = sc["request"]["rp_id"].as_str().unwrap_or("example.com").to_string();
 
+    if sc["op"] == "authdata_from_slice" {
+        let n = sc["len"].as_u64().unwrap_or(0) as usize;
+        let mut buf = vec![0u8; n];
+        if n > 32 {
+            buf[32] = sc["flag"].as_u64().unwrap_or(0) as u8;
+        }
+        let r = std::panic::catch_unwind(|| passkey_types::ctap2::AuthenticatorData::from_slice(&buf).map(|a| u8::from(a.flags)));
+        let out = match r {
+            Ok(Ok(f)) => json!({"result": {"ok": f}, "log": []}),
+            Ok(Err(_)) => json!({"result": {"err": 1}, "log": []}),
+            Err(_) => json!({"result": {"panic": "from_slice panicked"}, "log": []}),
+        };
+        println!("E2REPLAY {}", out);
+        return;
+    }
     if sc["op"] == "store_find" {
         // lookup contract of a shipped store: one stored credential, one query
         let mut pk = Passkey::mock(sc["stored_rp"].as_str().unwrap_or("a.example").to_string()).build();
@@ -333,6 +348,27 @@ fn main() {
                         "counter": resp.auth_data.counter,
                         "flags": u8::from(resp.auth_data.flags),
                         "has_attested": resp.auth_data.attested_credential_data.is_some()}}),
+                    Some(Err(e)) => json!({"err": u8::from(e)}),
+                }
+            }
+            "u2f_register" => {
+                let req = passkey_types::u2f::RegisterRequest { challenge: [5u8; 32], application: [6u8; 32] };
+                match block_on(U2fApi::register(&mut auth, req, &[1u8; 16]), max_polls, &mut polls) {
+                    None => json!("cancelled"),
+                    Some(Ok(resp)) => json!({"ok": {"key_handle_len": resp.key_handle.len(), "signature_len": resp.signature.len()}}),
+                    Some(Err(e)) => json!({"err": u8::from(e)}),
+                }
+            }
+            "u2f_authenticate" => {
+                let req = passkey_types::u2f::AuthenticationRequest {
+                    parameter: passkey_types::u2f::AuthenticationParameter::EnforceUserPresence,
+                    challenge: [5u8; 32],
+                    application: [6u8; 32],
+                    key_handle: vec![1u8; 16],
+                };
+                match block_on(U2fApi::authenticate(&auth, req, 1, Flags::UP), max_polls, &mut polls) {
+                    None => json!("cancelled"),
+                    Some(Ok(resp)) => json!({"ok": {"counter": resp.counter, "signature_len": resp.signature.len()}}),
                     Some(Err(e)) => json!({"err": u8::from(e)}),
                 }
             }
